@@ -107,3 +107,11 @@ Proof.
   induction l as [|x r IH]; simpl; [intros []|]. intros [->|H]; [apply Nat.le_max_l|].
   eapply Nat.le_trans; [apply IH; exact H|apply Nat.le_max_r].
 Qed.
+
+Lemma NoDup_firstn {X} n (l : list X) : NoDup l -> NoDup (firstn n l).
+Proof.
+  revert n. induction l as [|a l IH]; intros [|n] H; simpl; try constructor.
+  - inversion H as [|? ? Hn Hd]; subst. intro Hin. apply Hn. revert Hin. clear. revert n.
+    induction l as [|b l IH]; intros [|n]; simpl; try tauto. intros [H|H]; [left; exact H|right; eapply IH; exact H].
+  - inversion H; subst. apply IH. assumption.
+Qed.
